@@ -213,6 +213,50 @@ def core3_cases():
             yield ("core3", name, "\n".join(lines) + "\n", f"core={list(combo)}")
 
 
+# Long, realistic statements as an editor meets them while they are being typed: every character prefix, and the
+# complete statement with one character replaced by a delimiter.  (Pattern matching whose cost explodes on a
+# near-match only shows on long identifiers and unfinished lists; the other families use short ones.)
+LONG = [
+    "subroutine update_boundary(density, velocity, pressure, energy, gamma_gas, time_step)",
+    "pure function interpolate_linear(x_values, y_values, x_query, extrapolate) result(y_query)",
+    "integer function count_matching_elements(array_of_values, lower_bound_value, upper_bound_value)",
+    "real(kind=8), dimension(:, :), allocatable, intent(inout) :: temperature_field, pressure_field",
+    "character(len=*), parameter :: message_text = 'a fairly long message (with parens) and, commas'",
+    "call update_boundary(density(1:n), velocity(:, 1), pressure, energy, gamma_gas, time_step=0.5d0)",
+    "use numerical_constants, only: pi_value => pi, euler_number, golden_ratio, speed_of_light",
+    "type, extends(base_container), public :: derived_container_with_long_name",
+    "procedure, pass(self), public :: compute_something_expensive => compute_something_impl",
+    "generic, public :: operator(+) => add_containers, add_container_scalar, add_scalar_container",
+    "module procedure integrate_trapezoidal_rule, integrate_simpson_rule, integrate_gauss_rule",
+    "if (temperature_field(i, j) > threshold_value .and. pressure_field(i, j) < limit_value) then",
+    "associate (current_cell => mesh%cells(order(k)), neighbour_cell => mesh%cells(order(k + 1)))",
+    "where (temperature_field > threshold_value) pressure_field = pressure_field * scaling_factor",
+    "submodule (parent_module_name:intermediate_submodule) child_submodule_name",
+    "select type (polymorphic_argument_object_name)",
+    "class is (derived_container_with_long_name)",
+    "interface operator(.cross_product_of_vectors.)",
+    "enumerator :: colour_red = 1, colour_green = 2, colour_blue = 4, colour_alpha = 8",
+    "#define APPLY_TWICE(function_name, argument_value) function_name(function_name(argument_value))",
+    "#if defined(HAVE_LONG_FEATURE_NAME) && (FEATURE_LEVEL_VALUE > 2 || defined(OTHER_FEATURE_NAME))",
+]
+SUBST = [".", "(", ")", "'", "%", "=", ",", "&"]
+
+
+def long_cases(full):
+    for k, stmt in enumerate(LONG):
+        variants = [(stmt[:i], f"long[{k}] prefix {i}") for i in range(1, len(stmt) + 1)]
+        for ch in (SUBST if full else SUBST[:4]):
+            variants += [(stmt[:i] + ch + stmt[i + 1:], f"long[{k}] char {i} -> {ch!r}") for i in range(len(stmt)) if stmt[i] != ch]
+        for text, desc in variants:
+            for name, fixed in (KINDS if full else (("k.f90", False), ("k.F90", False), ("k.F", True))):
+                if text.startswith("#") and not name.endswith(("F90", "F")):
+                    continue
+                body = text if (text.startswith("#") or not fixed) else fixed_form(text)
+                yield ("long_statements", name, body + "\n", desc)
+                yield ("long_statements", name, ("module m\ncontains\n" if not fixed else fixed_form("module m") + "\n" + fixed_form("contains") + "\n")
+                       + body + "\n" + ("end module m\n" if not fixed else fixed_form("end module m") + "\n"), desc + " in module")
+
+
 def corpus():
     """[(relative name, text)] of the repository's sample sources."""
     base = os.path.join(core.REPO, "test", "test_source")
@@ -270,13 +314,15 @@ def main(ctx):
     ctx.rule = ("fragments: all sequences of <=N lines over the fragment alphabet x 4 file kinds; prefixes: every line/char "
                 "prefix of every corpus source; mutants: every line deletion/duplication/swap (and token deletion) of the "
                 "corpus. Each text is indexed by the real update_workspace_file, then documentSymbol and check_file run on "
-                "the result. Non-trivial = non-blank text; distinct by (file kind, text).")
+                "the result. long_statements: every character prefix of 21 long realistic statements and every single-character "
+                "replacement by a delimiter, alone and inside a module. Non-trivial = non-blank text; distinct by (file kind, text).")
     ctx.assumptions = ["time budget 10 s per text (measured typical: < 5 ms)",
                        "one long-lived server per worker whose workspace / obj_tree / pp_defs are reset before each text"]
     fams = [
         ("fragments", fragment_cases(2 if q else 3), 256),
         ("pp_sequences", pp_sequence_cases(4 if q else 5), 256),
         ("core3", core3_cases(), 256),
+        ("long_statements", long_cases(not q), 64),
         ("prefixes", prefix_cases(by_char=not q), 64),
         ("mutants", mutant_cases(token_level=not q), 64),
     ]
